@@ -69,6 +69,49 @@ def gen_cases(ctx):
                 m += 1
                 yield {"id": f"smooth-{name}-{nx}x{ny}-{m}", "kind": "smooth", **_beta_fields(b), "en": en, "rden": 16, "shape": [nx, ny], "rho": rho,
                        "vax": m % 3, "voxel": VOXELS[m % 3]}
+    yield from gen_sgrad_cases(ctx)
+
+
+def gen_sgrad_cases(ctx):
+    """finite-gradient clause on smooth (filtered-looking) designs in FLOAT32 (and float64): Gaussian blobs and exponentially
+    decaying fields whose tails have a tiny but non-zero slope (down to 1e-20 .. 1e-38), where masked-out branches of the
+    smoothed projection overflow unless they are guarded.  Parameters are integers; the field is built in observe()."""
+    rng = random.Random(ctx.seed + 11)
+    quick = ctx.quick
+    betas = [(False, 0, 1), (False, 1, 1), (False, 8, 1), (False, 64, 1), (False, 1024, 1), (False, 1048576, 1), (True, 0, 1)]
+    etas = [0, 5, 8, 16]  # /16
+    fields = []
+    for n in ((24,) if quick else (12, 24, 32)):
+        fields += [("gauss", n, 75, 90, 90), ("gauss", n, 10 * n // 2, 10 * n // 3, 40), ("gauss", n, 30, 10 * n - 40, 160),
+                   ("expx", n, 0, 0, 10), ("expx", n, 0, 0, 25), ("expy", n, 0, 0, 40), ("expxy", n, 0, 0, 15)]
+        for _ in range(1 if quick else 4):
+            fields.append(("gauss", n, rng.randint(0, 10 * n), rng.randint(0, 10 * n), rng.choice([20, 40, 90, 250])))
+    m = 0
+    for fld, n, cx, cy, w in fields:
+        for dtype in ("float32", "float64"):
+            for b in betas:
+                for en in (etas if not quick else [etas[(m + k) % 4] for k in (0, 2)]):
+                    m += 1
+                    yield {"id": f"sgrad-{fld}-{n}-{m}", "kind": "sgrad", **_beta_fields(b), "en": en, "eden": 16, "field": fld, "n": n,
+                           "cx10": cx, "cy10": cy, "w10": w, "dtype": dtype, "weighted": bool(m % 2), "vax": m % 3, "voxel": [5e-8, 1e-6][m % 2]}
+
+
+def _sgrad_field(case):
+    import numpy as np
+
+    n = case["n"]
+    i = np.arange(n, dtype=np.float64)
+    X, Y = np.meshgrid(i, i, indexing="ij")
+    w = case["w10"] / 10.0
+    if case["field"] == "gauss":
+        rho = np.exp(-(((X - case["cx10"] / 10.0) ** 2 + (Y - case["cy10"] / 10.0) ** 2) / w))
+    elif case["field"] == "expx":
+        rho = np.exp(-w * X)
+    elif case["field"] == "expy":
+        rho = 0.9 * np.exp(-w * Y)
+    else:
+        rho = np.exp(-w * (X + 0.5 * Y))
+    return rho.astype(np.float32 if case["dtype"] == "float32" else np.float64), X
 
 
 _CFG = None
@@ -108,6 +151,30 @@ def observe(case):
     rec.update({"scale": S, "tol": TOL, "err": "", "gerr": "", "gfin": []})
     if "voxel" in rec:
         rec["voxel"] = repr(rec["voxel"])  # floats cannot go through the Json module
+    if case["kind"] == "sgrad":
+        eta = case["en"] / case["eden"]
+        rho, X = _sgrad_field(case)
+        n = case["n"]
+        shape3 = [n, n]
+        shape3.insert(case["vax"], 1)
+        shape3 = tuple(shape3)
+        x = jnp.asarray(rho.reshape(shape3))  # keeps float32 although x64 is enabled
+        wgt = jnp.asarray((1.0 + 0.1 * X).astype(rho.dtype).reshape(shape3)) if case["weighted"] else None
+        vs = (case["voxel"],) * 3
+        t = SubpixelSmoothedProjection(projection_midpoint=eta)
+        t = t.init_module(config=_config(), materials=two, matrix_voxel_grid_shape=shape3, single_voxel_size=vs, output_shape={"params": shape3})
+        f = lambda a: t({"params": a}, beta=beta)["params"]  # noqa: E731
+        rec.update({"vfin": [], "nbad": 0, "xdtype": str(x.dtype)})
+        try:
+            val, g = jax.value_and_grad(lambda a: (f(a) * wgt).sum() if wgt is not None else f(a).sum())(x)
+            y = np.asarray(f(x))
+            rec["vfin"] = [int(v) for v in np.isfinite(y).ravel()]
+            gf = np.isfinite(np.asarray(g)).ravel()
+            rec["gfin"] = [int(v) for v in gf]
+            rec["nbad"] = int(np.sum(~gf))
+        except Exception as ex:
+            rec["gerr"] = (type(ex).__name__ + ": " + str(ex))[:160]
+        return rec
     if case["kind"] == "tanh":
         eta = case["en"] / case["eden"]
         x = jnp.asarray(np.asarray(case["xs"], dtype=np.float64) / case["xden"]).reshape(-1, 1, 1)
